@@ -3,7 +3,8 @@
 (*   reset {sc, surf, cfg, steps}      a scenario starts (fresh sessions on the same server)     *)
 (*   step  {i, el, obs}                the peer sent element el (= steps[i]) and saw obs =        *)
 (*                                     [codes, alive, panic, note]                               *)
-(*   end   {died, confirmed, panic, second, bystander, done, crash, frame, note}                 *)
+(*   end   {died, confirmed, panic, second, bystander, done, crash, frame, note, res}            *)
+(*         res: what the client session call returned (lal as client), "n/a" elsewhere            *)
 (* A line the specification does not allow is reported (@REJ@) and the rest of that scenario is   *)
 (* skipped.  The process must not have died, no server loop may have recovered a panic, every     *)
 (* step must have been answered as Surfaces.Expect allows, the steps executed must be all steps   *)
@@ -12,19 +13,19 @@ EXTENDS Surfaces, IOUtils
 
 Trace == ndJsonDeserialize(IOEnv.TRACE)
 
-VARIABLES l, surf, steps, k, st, open, failed
-tvars == <<l, surf, steps, k, st, open, failed>>
+VARIABLES l, surf, cfg, steps, k, st, open, failed
+tvars == <<l, surf, cfg, steps, k, st, open, failed>>
 
-TraceInit == /\ l = 1 /\ surf = "none" /\ steps = <<>> /\ k = 0 /\ st = RtspInit /\ open = TRUE /\ failed = FALSE
+TraceInit == /\ l = 1 /\ surf = "none" /\ cfg = [x |-> "-"] /\ steps = <<>> /\ k = 0 /\ st = RtspInit /\ open = TRUE /\ failed = FALSE
              /\ TLCSet(1, 1)
 IsEvent(e) == l <= Len(Trace) /\ Trace[l].ev = e /\ l' = l + 1
 
 Reject == /\ failed' = TRUE
           /\ IF failed THEN TRUE ELSE PrintT("@REJ@" \o ToString(l))
-          /\ UNCHANGED <<surf, steps, k, st, open>>
+          /\ UNCHANGED <<surf, cfg, steps, k, st, open>>
 
 TraceReset == /\ IsEvent("reset")
-              /\ surf' = Trace[l].surf /\ steps' = Trace[l].steps /\ k' = 0 /\ st' = RtspInit /\ open' = TRUE
+              /\ surf' = Trace[l].surf /\ cfg' = Trace[l].cfg /\ steps' = Trace[l].steps /\ k' = 0 /\ st' = RtspInit /\ open' = TRUE
               /\ failed' = FALSE
 
 TraceStep ==
@@ -35,14 +36,15 @@ TraceStep ==
            /\ e.i = k + 1 /\ e.i <= Len(steps) /\ e.el = steps[e.i]
            /\ Allowed(Expect(surf, st, first, e.el), e.obs)
         THEN /\ k' = k + 1 /\ st' = RtspStep(st, e.el) /\ open' = e.obs.alive /\ failed' = FALSE
-             /\ UNCHANGED <<surf, steps>>
+             /\ UNCHANGED <<surf, cfg, steps>>
         ELSE Reject
 
 TraceEnd ==
   /\ IsEvent("end")
   /\ LET e == Trace[l]
-     IN IF ~failed /\ EndOk(e) /\ e.done = k /\ (k = Len(steps) \/ ~open)
-        THEN failed' = FALSE /\ UNCHANGED <<surf, steps, k, st, open>>
+     IN IF /\ ~failed /\ EndOk(e) /\ e.done = k /\ (k = Len(steps) \/ ~open)
+           /\ (MustSucceed(surf, cfg, steps) => e.res = "ok")
+        THEN failed' = FALSE /\ UNCHANGED <<surf, cfg, steps, k, st, open>>
         ELSE Reject
 
 TraceNext == TraceReset \/ TraceStep \/ TraceEnd
